@@ -399,8 +399,8 @@ def storage_loops(F, R):
             if ok:
                 hdr = max(L, key=lambda l: len(l['blocks']))['header']
                 after_rem = ru.reachable([rem[0]], stop=[hdr])
-                ok = not any(x in after_rem for x, _ in incs) and len(set(x for x, _ in incs)) == 1
-                why = 'the index is advanced on the path that has just removed keys[i] (the key that moved into position i is skipped until the next callback)'
+                ok = not any(x in after_rem for x, _ in incs) and len(incs) == 1
+                why = 'the index is advanced on the path that has just removed keys[i], or by more than one on the other (keys are skipped until a later callback)'
         R.check(ok, 'B.C08.loops', 'remove_unused:index', 'SelfReferentialResourceStorage::remove_unused: %s' % why,
                 detail='if removed { keys.remove(i) } else { i += 1 }', where=ru.file)
     for st in ('backend::resources::ResourceStorage::<T>', SR):
